@@ -120,3 +120,5 @@ Print Assumptions C06_retried_until_success_or_revocation.
 Print Assumptions C06_attempt_fails_iff_broker_fails.
 Print Assumptions C06_only_last_attempt_can_succeed.
 Print Assumptions C06_retry_spec_sound.
+Print Assumptions C06_domain_inhabited.
+Print Assumptions C06_retry_example.
